@@ -33,6 +33,8 @@ CLAIMS = {
             NOTE_ENGINE + "; atomic file-system calls; process crash (no byte loss) for the adoption part"),
     "C20": ("Theorems C20_*: for every source configuration (both I/O types), every history (rotations, batches, merges, adopted merges with hint file, restarts) and every configuration used for the copy, the directory Backup produces opens as a database with exactly the mapping the source had at that time and all invariants (so its further behaviour follows from C06_step); the source keeps its mapping, its relation to a pending merge and goes on; the physical-size invariant this rests on holds in every reachable state; correspondence run with backups at random points (incl. values ending in zero bytes, a large write right after an MMap backup, refreshing one backup directory around an adopted merge of uniform-size records), every copy opened, inspected and written to",
             NOTE_ENGINE + "; directory lock not modelled here (C16); refreshing a non-empty destination is outside the theorems"),
+    "C12": ("Theorems C12_*: on ARBITRARY bytes at any reader position the chunk decoder, the sequential reader, the scan loop of Open/Merge and the random read never panic (every slice/index expression is a checked access in the model) and terminate; a chunk is accepted only if it carries the checksum of its own length, type and payload bytes, a record only if its header lengths add up to exactly the bytes present; a damaged checksum field is always rejected, a damaged type/payload byte for every checksum that separates strings differing in one byte; the check reads every damaged file (all single-bit flips of small files; random flips, truncations, garbage on multi-block files) with the real reader and the model and compares, and flips every bit of every byte of small databases under the real Open/Get/Fold with a written-values oracle",
+            "theorems are about the byte-level reader model (Chunk.v, Record.v), tied to datafile/ by differential execution on damaged files; crc is any 32-bit function; single-byte detection is a hypothesis about CRC-32; damage to a length field and the engine-level behaviour are covered by exhaustive/randomised execution, not by a theorem"),
     "C05": ("Theorems C05_*: a batch behaves as a private copy of the map installed at Commit (read-your-writes, in-order application, put-delete-put ends present), Commit succeeds and marks the batch committed, a committed batch rejects Put/Delete/Get/Commit without changing the database - for every database state, every sequence of batch operations incl. mid-batch flushes; correspondence run on batch-heavy scripts with a layered reference oracle",
             NOTE_ENGINE + "; the staging hash index is abstracted to key lookup; a fatal double unlock is observable only in the correspondence run"),
     "C11": ("Coq theorems (props/C11.v, closed under the global context) for every history of a data file, every record length and every block offset, about an executable model that is run against package datafile on generated histories on every check (bytes, positions, sizes, scans, random reads compared)",
